@@ -1,6 +1,168 @@
-//! C08 -- (stub; see DESIGN.md section 5)
-use crate::util::Args;
+//! C08 -- checkpointing is transparent.
+//!
+//! Every program the C01 generator derives from the TexGroups table is cut at an operation boundary;
+//! the VM is serialised and deserialised there (JSON / MessagePack / bincode, same built-ins) and the
+//! rest of the program runs on the restored VM.  `Checkpoint` is a stuttering step of the spec, so
+//! the expected reads are exactly those of the uncut program -- looked up in the same table.
+use crate::c01::{binding_list, build_program, run_segments, Bind, K};
+use crate::lts::Lts;
+use crate::util::{quiet_panics, Args, Out};
+use crate::vmh;
+use serde_json::{json, Value};
 
-pub fn dispatch(_cmd: &str, _args: &Args) -> Option<i32> {
-    None
+pub fn dispatch(cmd: &str, args: &Args) -> Option<i32> {
+    Some(match cmd {
+        "c08-edges" => edges(args),
+        _ => return None,
+    })
+}
+
+pub fn edges(args: &Args) -> i32 {
+    quiet_panics();
+    let lts = Lts::load(args.req("lts"));
+    let dev: Option<Lts> = args.str("devlts").map(Lts::load);
+    let seed: u64 = args.num("seed", 1);
+    let stride: usize = args.num("stride", 1); // use every stride-th edge
+    let all_positions = args.str("positions") == Some("all");
+    let n = lts.states.len();
+    let mut parent: Vec<Option<(usize, usize)>> = vec![None; n];
+    let mut seen = vec![false; n];
+    let mut order = vec![lts.init];
+    seen[lts.init] = true;
+    let mut qi = 0;
+    while qi < order.len() {
+        let s = order[qi];
+        qi += 1;
+        for oi in 0..lts.ops.len() {
+            if let Some((t, _)) = &lts.edges[s][oi] {
+                let t = *t as usize;
+                if !seen[t] {
+                    seen[t] = true;
+                    parent[t] = Some((s, oi));
+                    order.push(t);
+                }
+            }
+        }
+    }
+    let path_to = |s: usize| -> Vec<usize> {
+        let mut p = vec![];
+        let mut cur = s;
+        while let Some((ps, oi)) = parent[cur] {
+            p.push(oi);
+            cur = ps;
+        }
+        p.reverse();
+        p
+    };
+    let mut edge_list: Vec<(usize, usize)> = vec![];
+    for s in 0..n {
+        for oi in 0..lts.ops.len() {
+            if let Some((_, res)) = &lts.edges[s][oi] {
+                let k = lts.ops[oi]["k"].as_str().unwrap();
+                if k == "checkpoint" || (k == "end" && res == &json!(false)) {
+                    continue;
+                }
+                edge_list.push((s, oi));
+            }
+        }
+    }
+    let edge_list: Vec<(usize, usize)> = edge_list
+        .into_iter()
+        .enumerate()
+        .filter(|(i, _)| (i + seed as usize) % stride == 0)
+        .map(|(_, e)| e)
+        .collect();
+    let bindings = binding_list(true);
+    let nb = bindings.len();
+    let fmts = [vmh::Format::Json, vmh::Format::MessagePack, vmh::Format::Bincode];
+    let nthreads = std::thread::available_parallelism().map(|n| n.get()).unwrap_or(4);
+    let next = std::sync::atomic::AtomicUsize::new(0);
+    struct Acc {
+        runs: u64,
+        viol: Vec<Value>,
+        samples: Vec<Value>,
+        per_fmt: [u64; 3],
+    }
+    let acc = std::sync::Mutex::new(Acc { runs: 0, viol: vec![], samples: vec![], per_fmt: [0; 3] });
+    std::thread::scope(|sc| {
+        for _ in 0..nthreads {
+            sc.spawn(|| {
+                let mut runs = 0u64;
+                let mut viol: Vec<Value> = vec![];
+                let mut samples: Vec<Value> = vec![];
+                let mut per_fmt = [0u64; 3];
+                loop {
+                    let i = next.fetch_add(1, std::sync::atomic::Ordering::SeqCst);
+                    if i >= edge_list.len() {
+                        break;
+                    }
+                    let (s, oi) = edge_list[i];
+                    let mut ops = path_to(s);
+                    ops.push(oi);
+                    let bi = (i.wrapping_mul(7919) + seed as usize) % nb;
+                    let (ka, kb) = bindings[bi];
+                    let binds = [Bind { kind: ka, slot: 1 }, Bind { kind: kb, slot: 2 }, Bind { kind: K::GlobalDefs, slot: 3 }];
+                    let Some(prog) = build_program(&lts, &binds, &ops) else { continue };
+                    let np = prog.parts.len();
+                    // cut positions: after part k (1 <= k < np); part 0 is the depth-0 setup
+                    let positions: Vec<usize> = if all_positions { (1..np).collect() } else { vec![1 + (i + seed as usize) % (np - 1)] };
+                    for (pi, k) in positions.iter().enumerate() {
+                        let fmt_list: Vec<usize> = if all_positions { vec![0, 1, 2] } else { vec![(i + pi) % 3] };
+                        for fi in fmt_list {
+                            let mut a = prog.parts[..*k].concat();
+                            a.push('\n');
+                            let b = prog.parts[*k..].concat();
+                            let (got, outcome) = run_segments(&[a.clone(), b.clone()], &[fmts[fi]]);
+                            runs += 1;
+                            per_fmt[fi] += 1;
+                            if got != prog.expect || outcome != "ok" {
+                                // is the disagreement already present without the checkpoint, and explained
+                                // by a recorded deviation of C01?  (then it is not C08's to report)
+                                let (plain, plain_outcome) = crate::c01::run_program(&prog.src);
+                                let same_as_uncut = plain == got && plain_outcome == outcome;
+                                let mut explained = false;
+                                if let (Some(d), true) = (&dev, same_as_uncut) {
+                                    let dops: Option<Vec<usize>> = ops.iter().map(|oi| {
+                                        let mut o = lts.ops[*oi].clone();
+                                        o.as_object_mut().unwrap().remove("res");
+                                        d.op_index.get(&serde_json::to_string(&o).unwrap()).copied()
+                                    }).collect();
+                                    if let Some(dp) = dops.and_then(|dops| build_program(d, &binds, &dops)) {
+                                        explained = dp.src == prog.src && dp.expect == got;
+                                    }
+                                }
+                                if viol.len() < 100 {
+                                    viol.push(json!({"kind":"violation","part":"checkpoint-edges","before":a,"after":b,
+                                        "format":format!("{:?}", fmts[fi]),"expected":prog.expect,"got":got,"outcome":outcome,
+                                        "uncut_reads":plain,"same_as_uncut":same_as_uncut,"explained_by_c01_deviation":explained,
+                                        "kinds":[format!("{ka:?}"),format!("{kb:?}"),"GlobalDefs"],"path_len":ops.len()}));
+                                }
+                            } else if samples.is_empty() && ops.len() >= 4 {
+                                samples.push(json!({"before":a,"after":b,"format":format!("{:?}", fmts[fi]),"reads":got}));
+                            }
+                        }
+                    }
+                }
+                let mut a = acc.lock().unwrap();
+                a.runs += runs;
+                a.viol.extend(viol);
+                if a.samples.len() < 3 {
+                    a.samples.extend(samples);
+                }
+                for i in 0..3 {
+                    a.per_fmt[i] += per_fmt[i];
+                }
+            });
+        }
+    });
+    let a = acc.into_inner().unwrap();
+    let mut out = Out::new(args.str("out"));
+    let mut v = a.viol;
+    v.sort_by_key(|x| x["path_len"].as_u64().unwrap_or(0));
+    for x in v.iter().take(args.num("maxviol", 60)) {
+        out.line(x);
+    }
+    out.line(&json!({"kind":"summary","part":"checkpoint-edges","edges":edge_list.len(),"runs":a.runs,
+        "json":a.per_fmt[0],"messagepack":a.per_fmt[1],"bincode":a.per_fmt[2],"samples":a.samples}));
+    0
 }
